@@ -601,13 +601,13 @@ func genEthTx(t *rapid.T) *etypes.Transaction {
 	nonce := rapid.Uint64Range(0, 1<<32).Draw(t, "ethNonce")
 	gas := rapid.Uint64Range(21000, 5000000).Draw(t, "ethGas")
 	var inner etypes.TxData
-	switch rapid.SampledFrom([]string{"legacy", "legacy", "dynamic", "accesslist"}).Draw(t, "ethType") {
+	// Type-1 (access list) transactions are not generated: the client library's CaculateRealV subtracts 27 from
+	// their 0/1 parity, so eth_sendRawTransaction refuses them before any chain33 signature exists (rpc layer, not C16).
+	switch rapid.SampledFrom([]string{"legacy", "dynamic"}).Draw(t, "ethType") {
 	case "legacy":
 		inner = &etypes.LegacyTx{Nonce: nonce, GasPrice: big.NewInt(1e10), Gas: gas, To: to, Value: value, Data: data}
-	case "dynamic":
-		inner = &etypes.DynamicFeeTx{ChainID: big.NewInt(evmChainID), Nonce: nonce, GasTipCap: big.NewInt(1e9), GasFeeCap: big.NewInt(1e10), Gas: gas, To: to, Value: value, Data: data}
 	default:
-		inner = &etypes.AccessListTx{ChainID: big.NewInt(evmChainID), Nonce: nonce, GasPrice: big.NewInt(1e10), Gas: gas, To: to, Value: value, Data: data}
+		inner = &etypes.DynamicFeeTx{ChainID: big.NewInt(evmChainID), Nonce: nonce, GasTipCap: big.NewInt(1e9), GasFeeCap: big.NewInt(1e10), Gas: gas, To: to, Value: value, Data: data}
 	}
 	stx, err := etypes.SignTx(etypes.NewTx(inner), etypes.NewLondonSigner(big.NewInt(evmChainID)), key)
 	if err != nil {
